@@ -51,6 +51,8 @@ Proof.
   apply Z.log2_le_mono in Hle. rewrite Z.log2_pow2 in Hle by lia. exact Hle.
 Qed.
 
+(* why the primitives have to be size-bounded (fix a9a4a4e): before it, a 5-node expression made the
+   walker compute a value of more than 10^9 bits *)
 Lemma c01_cost_unbounded_refuted :
   size e_pow = 5%nat /\ 1000000000 <= Z.log2 (9 ^ (9 ^ 9)).
 Proof.
